@@ -7,7 +7,7 @@ EXTENDS Campaign, Relations
 CONSTANT Rels      \* relations to enumerate: subset of {"Unit", "Similar", "Mirror", "Boost", "Rigid", "Route"}
 
 (* self-similar families (C10) *)
-SimFams == {"Noh", "Cog19", "RiemannIG", "Mader", "Sedov", "EHEP"}
+SimFams == {"Noh", "Cog19", "RiemannIG", "Mader", "Sedov", "EHEP", "Guderley"}     \* Guderley: the ratio is the length ratio a (see Relations)
 (* rigid motions of the burn-time problems (C09): exact rotations by Pythagorean angles, reflections, translations *)
 Motions == {[kind |-> "rot", c |-> <<3, 5>>, s |-> <<4, 5>>], [kind |-> "rot", c |-> <<-5, 13>>, s |-> <<12, 13>>],
             [kind |-> "refl", c |-> <<1, 1>>, s |-> <<0, 1>>], [kind |-> "shift", c |-> <<7, 3>>, s |-> <<-11, 5>>]}
